@@ -17,7 +17,7 @@ TRUSTED = ["xml.sax.saxutils.quoteattr is modelled; the specification decoders a
 ASSUMPTIONS = ["export: no whitespace inside fields, non-empty words, no word of the form #ddd, fewer than 500 constituents"]
 
 WORDS = treegen.WORDS + ["sevench", "eightchr", "fifteen_chars__", "sixteen_chars___", "a&b", "<tag>", "\"'both'\"", "tab",
-                         "-LRB-", ")", "(", "[x]", "{", "é", "日本"]
+                         "-LRB-", ")", "(", "[x]", "{", "é", "日本", "#2020", "#77", "#100Days", "Donaudampfschifffahrtsgesellschaft"]
 LABEL_OPTS = ["gf", "gf_terminals", "mark_heads_marking", "boyd_split_marking", "boyd_split_numbering"]
 
 
